@@ -212,7 +212,7 @@ fn run<T: Flt>(src: &mut Src, obs: &mut Obs, two_d: bool) -> Result<(), Fail> {
             _ => {
                 let qd = src.pick(&[QDim::S1, QDim::S1, QDim::S2, QDim::Dyn]);
                 let rank = qd.static_rank().unwrap_or_else(|| src.usize_in(0, 2));
-                let sh: Vec<usize> = (0..rank).map(|_| src.usize_in(0, 3)).collect();
+                let sh: Vec<usize> = crate::gen1d::qshape(src, rank);
                 let len = product(&sh);
                 let pts: Vec<(T, T)> = (0..len).map(|_| point(src)).collect();
                 let (qx, qy): (Vec<T>, Vec<T>) = pts.into_iter().unzip();
